@@ -5,6 +5,7 @@ import PysphVerif.Lemmas.CodegenClosure
 import PysphVerif.Lemmas.CodegenWiring
 import PysphVerif.Lemmas.CodegenGroups
 import PysphVerif.Lemmas.CodegenOpts
+import PysphVerif.Lemmas.CodegenIter
 /-!
 # C02 — compiled equations compute what the Python equation source says
 
@@ -426,5 +427,143 @@ example : wrapperDecls declsMerge
     [⟨"B", [("ca", .float), ("dest", .str)]⟩, ⟨"A", [("on", .bool)]⟩,
      ⟨"B", [("ca", .int), ("dest", .str)]⟩] =
     [("A", [("on", "int")]), ("B", [("ca", "double"), ("dest", "str")])] := by decide
+
+/-! ## 8. iterated groups: how often the methods of a group run
+
+`Model/CodegenIter.lean` §8 (`Group.get_converged_condition`, `get_iteration_init`,
+`get_iteration_check`). -/
+
+/-- The break test polls EVERY equation object of the group (sub-groups included), each once,
+in order -- whichever class of its hierarchy defines `converged`. -/
+theorem break_test_polls_every_equation (g : IterGroup) :
+    polled g = g.equations.map (·.var) := polled_eq_map g
+
+/-- The convergence factor of the generated break test is true exactly when the `converged()`
+of each equation of the group is positive (Group docstring: "until each equation's
+converged() ... returns with a positive value"). -/
+theorem break_test_iff_each_converged (g : IterGroup) (st : Name → Bool) :
+    allConverged (polled g) st = true ↔ ∀ e ∈ g.equations, st e.var = true := by
+  rw [allConverged_iff, break_test_polls_every_equation]
+  simp [List.mem_map]
+
+/-- The generated loop makes the documented number of sweeps, for every `min_iterations ≤
+max_iterations`, `1 ≤ max_iterations` and every behaviour of the equations: the FIRST sweep
+`k ≥ max(1, min_iterations)` after which every equation reports convergence, and
+`max_iterations` if there is none before; it never stops while an equation of the group
+still reports `converged() < 0` unless `max_iterations` is reached. -/
+theorem iterated_group_sweeps_documented (g : IterGroup) (mn mx : Nat)
+    (st : Nat → Name → Bool) (h1 : 1 ≤ mx) (h2 : mn ≤ mx) :
+    ∃ k, groupSweeps (polled g) mn mx st = some k ∧ 1 ≤ k ∧ mn ≤ k ∧ k ≤ mx ∧
+      ((∀ e ∈ g.equations, st k e.var = true) ∨ k = mx) ∧
+      ∀ j, 1 ≤ j → mn ≤ j → j < k → ∃ e ∈ g.equations, st j e.var = false := by
+  obtain ⟨k, hk, a, b, c, d, e⟩ :=
+    iterateFrom_spec mn mx (fun k => allConverged (polled g) (st k)) mx 1 h1 h2 (by omega)
+  refine ⟨k, hk, a, c, b, ?_, ?_⟩
+  · rcases d with d | d
+    · exact Or.inl ((break_test_iff_each_converged g (st k)).1 d)
+    · exact Or.inr d
+  · intro j hj1 hj2 hj3
+    have hf := e j hj1 hj3 hj2
+    apply Classical.byContradiction
+    intro hcon
+    have : ∀ e ∈ g.equations, st j e.var = true := by
+      intro e he
+      cases hv : st j e.var with
+      | true => rfl
+      | false => exact absurd ⟨e, he, hv⟩ hcon
+    have := (break_test_iff_each_converged g (st j)).2 this
+    simp [this] at hf
+
+/-- Why the break test must not be restricted to the equations whose OWN class body defines
+`converged`: an equation that inherits `converged` from a base equation class (reports
+convergence after the 3rd sweep) keeps the pinned loop going for 3 sweeps; polling by the
+class `__dict__` leaves after `min_iterations` = 1 sweep. -/
+theorem own_dict_polling_stops_early :
+    let g := IterGroup.leaf [⟨"relax_weighted0", false⟩]
+    let st : Nat → Name → Bool := fun k _ => decide (3 ≤ k)
+    groupSweeps (polled g) 1 6 st = some 3 ∧ groupSweeps (polledOwnDict g) 1 6 st = some 1 := by
+  decide
+
+example : groupSweeps (polled (.parent [[⟨"a0", true⟩], [⟨"b0", false⟩, ⟨"c0", true⟩]])) 2 4
+    (fun k v => if v = "b0" then decide (3 ≤ k) else true) = some 3 := by decide
+
+/-! ## 9. the arrays a re-bound evaluator reads and writes
+
+`Model/CodegenIter.lean` §9 (`ParticleArrayWrapper.set_array`,
+`AccelerationEval.update_particle_arrays`). -/
+
+/-- After `update_particle_arrays` every property AND every constant of the new array is
+bound to the new array, whatever the wrapper was bound to before. -/
+theorem rebind_binds_props_and_consts (w : Wrapper) (pa : PArrObj) (k : Name)
+    (h : k ∈ pa.props ∨ k ∈ pa.consts) : setArray w pa k = some pa.id := by
+  rw [setArray_get]
+  rcases h with h | h <;> simp [h]
+
+/-- ... for any history of re-bindings: with arrays of the same property and constant names
+(the documented precondition of `update_particle_arrays`) every attribute the wrapper has ever
+bound refers into the LAST array passed -- nothing stays bound to an array of before. -/
+theorem rebind_history_leaves_nothing_stale (first : PArrObj) (later : List PArrObj) (last : PArrObj)
+    (hp : ∀ pa ∈ first :: later, ∀ k, (k ∈ pa.props ∨ k ∈ pa.consts) →
+      (k ∈ last.props ∨ k ∈ last.consts)) (k : Name) (i : Nat)
+    (hk : rebindHistory first (later ++ [last]) k = some i) : i = last.id := by
+  unfold rebindHistory at hk
+  rw [List.foldl_append] at hk
+  simp only [List.foldl_cons, List.foldl_nil] at hk
+  rw [setArray_get] at hk
+  split at hk
+  · exact (Option.some.inj hk).symm
+  · rename_i hn
+    exfalso
+    -- k was bound by some earlier array, whose names are names of `last`
+    have key : ∀ (l : List PArrObj) (w : Wrapper),
+        (∀ pa ∈ l, ∀ k, (k ∈ pa.props ∨ k ∈ pa.consts) → (k ∈ last.props ∨ k ∈ last.consts)) →
+        (∀ j, w k = some j → (k ∈ last.props ∨ k ∈ last.consts) ∨ k = "tag" ∨ k = "pid" ∨ k = "gid") →
+        ∀ j, l.foldl setArray w k = some j →
+          (k ∈ last.props ∨ k ∈ last.consts) ∨ k = "tag" ∨ k = "pid" ∨ k = "gid" := by
+      intro l
+      induction l with
+      | nil => intro w _ hw j hj; exact hw j hj
+      | cons pa rest ih =>
+        intro w hl hw j hj
+        simp only [List.foldl_cons] at hj
+        apply ih (setArray w pa) (fun q hq => hl q (List.mem_cons_of_mem _ hq)) _ j hj
+        intro j' hj'
+        rw [setArray_get] at hj'
+        split at hj'
+        · rename_i hin
+          rcases hin with hin | hin | hin
+          · exact Or.inl (hl pa (List.mem_cons_self) k (Or.inr hin))
+          · exact Or.inl (hl pa (List.mem_cons_self) k (Or.inl hin))
+          · exact Or.inr hin
+        · exact hw j' hj'
+    have := key later (initWrapper first)
+      (fun q hq => hp q (List.mem_cons_of_mem _ hq))
+      (by
+        intro j hj
+        unfold initWrapper at hj
+        rw [setArray_get] at hj
+        split at hj
+        · rename_i hin
+          rcases hin with hin | hin | hin
+          · exact Or.inl (hp first (List.mem_cons_self) k (Or.inr hin))
+          · exact Or.inl (hp first (List.mem_cons_self) k (Or.inl hin))
+          · exact Or.inr hin
+        · cases hj) i hk
+    rcases this with (h | h) | h
+    · exact hn (Or.inr (Or.inl h))
+    · exact hn (Or.inl h)
+    · exact hn (Or.inr (Or.inr h))
+
+/-- Why the constants must be bound in `set_array` and not once in `__init__`: after
+`update_particle_arrays` the properties refer into the new array and the constant still into
+the array the evaluator was built with -- reads see the old value, writes land in the old array. -/
+theorem consts_bound_once_go_stale :
+    let a0 : PArrObj := ⟨0, ["x", "rho"], ["fac"]⟩
+    let a1 : PArrObj := ⟨1, ["x", "rho"], ["fac"]⟩
+    rebindHistoryConstsOnce a0 [a1] "rho" = some 1 ∧ rebindHistoryConstsOnce a0 [a1] "fac" = some 0 ∧
+    rebindHistory a0 [a1] "fac" = some 1 := by decide
+
+example : rebindHistory ⟨0, ["x"], ["c0"]⟩ [⟨1, ["x"], ["c0"]⟩, ⟨2, ["x"], ["c0"]⟩] "c0" = some 2 := by
+  decide
 
 end PysphVerif.Props.C02
